@@ -27,7 +27,7 @@ FTab == IF "FUNCS" \in DOMAIN IOEnv THEN ndJsonDeserialize(IOEnv.FUNCS) ELSE <<>
 TraceFuncTable == {[name |-> FTab[i].name, canon |-> FTab[i].canon, min |-> FTab[i].min, max |-> FTab[i].max] : i \in 1..Len(FTab)}
 VARIABLE l
 Ctx(r) == [input |-> r.ctx.input, parents |-> r.ctx.parents, vars |-> r.ctx.vars, macros |-> r.ctx.macros, results |-> r.ctx.results,
-           re |-> IF "re" \in DOMAIN r.ctx THEN r.ctx.re ELSE <<>>]
+           re |-> IF "re" \in DOMAIN r.ctx THEN r.ctx.re ELSE <<>>, env |-> IF "env" \in DOMAIN r.ctx THEN r.ctx.env ELSE <<>>]
 Short(v) == IF v.t \in {"arr", "obj", "uobj"} THEN [t |-> v.t] ELSE v
 
 CheckDoc(r) == LET want == Eval(r.ast, Ctx(r)) IN
